@@ -21,6 +21,7 @@ EXPLANATION = (
     "execute_systems from the package. Model.execute: type/value tests partition the inputs as the property says, the "
     "success paths loop range(n) over exactly one execute_systems call. Model.__getattr__('timestep') returns the "
     "scheduler's clock and Model holds no second copy. R-FWD: window parameters reach System's fields.")
+EXPLANATION += (" Premises re-checked on every run: C01's pairing/discipline rules (each registered system queued exactly once) and all of C05 (every queued system visited once per step).")
 ASSUMPTIONS = [
     "G6: user systems do not write scheduler fields directly; frequency >= 1 (quantifier)",
     "Python's % with positive modulus; divisibility is invariant under negation of the dividend",
